@@ -161,15 +161,18 @@ def _tdvp_ps_backward(ttns: TTNS, ttno: TTNO, ttne: TTNEnviron, coeff: Union[com
             stack.pop()
             continue
         ichild += 1
-        child = snode.children[ichild]
+        # the children are visited in reversed order so that this sweep is the adjoint of the forward sweep
+        # (otherwise the composition is only first order for nodes with more than one child)
+        jchild = len(snode.children) - 1 - ichild
+        child = snode.children[jchild]
         # decompose, the first index for child, the second index for parent
-        ms = ttns.decompose_to_child(snode, ichild)
+        ms = ttns.decompose_to_child(snode, jchild)
         # update env
-        ttne.build_parent_environ_node(snode, ichild, ttns, ttno)
+        ttne.build_parent_environ_node(snode, jchild, ttns, ttno)
         # backward time evolution for snode
         shape = ms.shape
         ms, j = evolve_0site(ms, child, ttns, ttno, ttne, coeff, -tau)
-        ttns.merge_to_child(snode, ichild, ms.reshape(shape))
+        ttns.merge_to_child(snode, jchild, ms.reshape(shape))
         local_steps.append(j)
         stack[-1] = snode, ichild
         stack.append((child, -1))
